@@ -604,16 +604,27 @@ theorem foldl_max_length_le {α : Type} (b : Nat) (cards : List (List α)) (h : 
 theorem gtail_length_le (w : Nat) (short : Bool) (ps seid : Option Int) : (gtail w short ps seid).1.length ≤ 2 := by
   cases short <;> cases ps <;> cases seid <;> simp [gtail]
 
-/-- `rdgrids` on the cards of fully expanded rows -/
+theorem rdcardsAux_skip_all (nm : Txt) (pre : List Txt) (h : ∀ l ∈ pre, startsWith nm (lower l) = false) :
+    ∀ (fuel : Nat) (rest : List Txt), rdcardsAux nm (pre.length + fuel) (pre ++ rest) = rdcardsAux nm fuel rest := by
+  induction pre with
+  | nil => intro fuel rest; simp
+  | cons l r ih =>
+      intro fuel rest
+      have e : (l :: r).length + fuel = (r.length + fuel) + 1 := by simp; omega
+      rw [e, List.cons_append, rdcardsAux_skip nm _ l _ (h l (by simp))]
+      exact ih (fun x hx => h x (by simp [hx])) fuel rest
+
+/-- `rdgrids` on the cards of fully expanded rows, after any lines that are not GRID cards -/
 theorem rdGrids_rows (wide short : Bool) (rows : List GRow) (hne : rows ≠ [])
     (hc : ∀ r ∈ rows, r.Clean (if wide then 16 else 8))
-    (hsh : short = true → ∀ r ∈ rows, r.ps = none ∧ r.seid = none) :
-    rdGrids (rows.flatMap fun r => gridCard wide (r.fields (if wide then 16 else 8) short)) =
+    (hsh : short = true → ∀ r ∈ rows, r.ps = none ∧ r.seid = none)
+    (pre : List Txt) (hpre : ∀ l ∈ pre, startsWith (txt "grid") (lower l) = false) :
+    rdGrids (pre ++ rows.flatMap fun r => gridCard wide (r.fields (if wide then 16 else 8) short)) =
       .rows (rows.map GRow.vals) := by
   have hl : lower (txt "grid") = txt "grid" := by decide
   have hcards := rdcardsAux_grid_rows wide short rows hc _ (Nat.lt_succ_self _)
   unfold rdGrids rdcards
-  rw [hl, hcards]
+  rw [hl, List.length_append, Nat.add_assoc, rdcardsAux_skip_all _ pre hpre, hcards]
   have hlen : ∀ r : GRow, ((r.solid (if wide then 16 else 8) short).map nasScan).length ≤ 8 ∧
       6 ≤ ((r.solid (if wide then 16 else 8) short).map nasScan).length := by
     intro r
